@@ -266,7 +266,7 @@ PROFILES = {
 def gen_case(rng, profile="full", size=None, ntops=1):
     p = dict(PROFILES[profile])
     kinds = rng.choice([1, 2, 2, 3])
-    cfg = {"kinds": {}}
+    cfg = {"kinds": {}, "salt": rng.randrange(1000000)}
     for k in range(kinds):
         kc = {}
         r = rng.random()
